@@ -710,11 +710,10 @@ Proof.
     destruct W as [W|W].
     2:{ unfold aperm in E. rewrite W in E. destruct (sec_error _ _ _); discriminate. }
     rewrite W.
-    destruct (_ <? _); [intros [H1 H2 H3 H4 H5 H6]; constructor; assumption|].
-    destruct (_ <? _); [intros [H1 H2 H3 H4 H5 H6]; constructor; assumption|].
+    destruct (len (nth g (as_vals a) []) <? 0); [intros [H1 H2 H3 H4 H5 H6]; constructor; assumption|].
+    destruct (len (nth g (as_vals a) []) <? 0 + len (@nil N)); [intros [H1 H2 H3 H4 H5 H6]; constructor; assumption|].
     rewrite splice_nothing, upd_same. intros [H1 H2 H3 H4 H5 H6]; constructor; assumption.
-  - destruct (aperm c _ _ _); [|intros S; exact S]. destruct (_ <? _); [intros S; exact S|]. destruct (_ <? _); intros S; exact S.
-  - destruct (_ <? _); intros S; exact S.
+  - destruct (aperm c _ _ _); [|intros S; exact S]. destruct (2 <? 0); [intros S; exact S|]. destruct (2 <? 0 + len (@nil N)); intros S; exact S.
 Qed.
 
 Lemma wq_end_used c st a : sim c st a -> wq_end st = queue_used (as_queue a).
@@ -731,14 +730,14 @@ Proof. intros S. destruct g; [apply sim_set_mark|]; exact S. Qed.
 Lemma len5_not_lt5 (op a1 a2 a3 a4 : N) (data : list N) : (len (op :: a1 :: a2 :: a3 :: a4 :: data) <? 5) = false.
 Proof. apply N.ltb_ge. rewrite !len_cons. lia. Qed.
 
-Lemma handle_prepare_write_sim c st a cid k qs lo hi olo ohi data b out_size n st' b' m :
-  sim c st a -> get_conn st cid = Some k -> no_k2 c -> wqueue c = Some qs -> 23 <= out_size -> out_size = out_limit c a cid n ->
-  handle_prepare_write c st cid (22 :: lo :: hi :: olo :: ohi :: data) b out_size = Some (st', (b', m)) ->
+Lemma handle_prepare_write_sim c st a cid k qs lo hi olo ohi data b n st' b' m :
+  sim c st a -> get_conn st cid = Some k -> no_k2 c -> wqueue c = Some qs -> 23 <= out_limit c a cid n ->
+  handle_prepare_write c st cid (22 :: lo :: hi :: olo :: ohi :: data) b (out_limit c a cid n) = Some (st', (b', m)) ->
   m <= len b' /\
   sim c st' (fst (aprepare c a cid qs (lo + 256 * hi) (olo + 256 * ohi) data (22 :: lo :: hi :: olo :: ohi :: data) n)) /\
   sat (snd (aprepare c a cid qs (lo + 256 * hi) (olo + 256 * ohi) data (22 :: lo :: hi :: olo :: ohi :: data) n)) (OBytes (takeN m b')).
 Proof.
-  intros S G NK Hq Ho Hl. unfold handle_prepare_write. rewrite rd_0, Hq, len5_not_lt5.
+  intros S G NK Hq Ho. set (out_size := out_limit c a cid n) in *. unfold handle_prepare_write. rewrite rd_0, Hq, len5_not_lt5.
   set (pdu := 22 :: lo :: hi :: olo :: ohi :: data).
   destruct (check_handle c pdu b out_size) as [r|] eqn:EC; [|discriminate].
   destruct (check_handle_cases _ _ _ _ _ _ _ _ Ho EC) as [(b1 & m1 & -> & L & EA)|(-> & H0 & Hi)].
@@ -780,10 +779,96 @@ Proof.
               ** apply Forall_app. split; [exact H6|]. constructor; [|constructor]. split.
                  { unfold pdu. cbn [tl]. rewrite !len_cons. lia. }
                  { unfold pdu, dec_elem. cbn [tl nth fst]. rewrite (attr_of_index c _ H0 Hi), EA. discriminate. }
-           ++ cbn [snd sat]. rewrite T. f_equal. f_equal. rewrite <- Hl.
+           ++ cbn [snd sat]. rewrite T. f_equal. f_equal. fold out_size.
               unfold slice in SE. destruct ((1 <=? N.min out_size (len pdu)) && (N.min out_size (len pdu) <=? len pdu)); [|discriminate].
               apply some_inj in SE. subst echo. unfold sub, takeN, dropN, pdu. cbn [N.to_nat Pos.to_nat Pos.iter_op skipn tl]. reflexivity.
     + (* refused *)
       intros H. mon. destruct (error_response_exact _ _ _ _ out_size _ _ ltac:(lia) E) as [L T].
       split; [exact L|]. split; [apply sim_mark_opt; exact S1|]. cbn [snd sat]. rewrite T. reflexivity.
+Qed.
+
+(* ------------------------------------------------------------------ Execute Write *)
+Lemma rd16_nth (e : list N) i : i + 1 < len e -> rd16 e i = Some (nth (N.to_nat i) e 0 + 256 * nth (N.to_nat (i + 1)) e 0).
+Proof.
+  intros H. unfold rd16, rd.
+  destruct (i <? len e) eqn:E1; [|apply N.ltb_ge in E1; lia].
+  destruct (i + 1 <? len e) eqn:E2; [|apply N.ltb_ge in E2; lia].
+  rewrite (nth_error_nth' e 0) by (unfold len in *; lia). rewrite (nth_error_nth' e 0) by (unfold len in *; lia). reflexivity.
+Qed.
+
+Lemma attr_of_some c h at_ : attr_of c h = Some at_ -> attribute_at c (index_by_handle c h) = Some at_.
+Proof.
+  unfold attr_of. destruct (h =? 0); [discriminate|]. destruct (index_by_handle c h =? invalid_index); [discriminate|]. auto.
+Qed.
+
+Lemma execute_writes_sim c cid elems : forall st a st1 failure,
+  sim c st a -> Forall (elem_ok c) elems ->
+  execute_writes c st cid elems = Some (st1, failure) ->
+  sim c st1 (fst (aexecute c a cid (map dec_elem elems))) /\ snd (aexecute c a cid (map dec_elem elems)) = failure.
+Proof.
+  induction elems as [|e t IH]; intros st a st1 failure S Q H.
+  - cbn in H. mon. split; [exact S|reflexivity].
+  - inversion Q as [|? ? [L A] Q']; subst. cbn [execute_writes] in H.
+    rewrite (rd16_nth e 0) in H by lia. rewrite (rd16_nth e 2) in H by lia.
+    change (N.to_nat 0) with 0%nat in H. change (N.to_nat (0 + 1)) with 1%nat in H.
+    change (N.to_nat 2) with 2%nat in H. change (N.to_nat (2 + 1)) with 3%nat in H.
+    cbn [map aexecute dec_elem]. unfold dec_elem in A. cbn [fst] in A.
+    destruct (attr_of c (nth 0 e 0 + 256 * nth 1 e 0)) as [at_|] eqn:EA; [|contradiction].
+    rewrite (attr_of_some _ _ _ EA) in H. unfold dropN in H. change (N.to_nat 4) with 4%nat in H.
+    destruct (access_write c st cid at_ (nth 2 e 0 + 256 * nth 3 e 0) (skipn 4 e)) as [[st2 rc]|] eqn:EW; [|discriminate].
+    pose proof (access_write_not_equal _ _ _ _ _ _ _ _ EW) as NE.
+    destruct (access_write_sim c st a cid at_ _ _ st2 rc m_executed S EW) as [R S2].
+    destruct (awrite c a cid at_ (nth 2 e 0 + 256 * nth 3 e 0) (skipn 4 e) m_executed) as [r a2] eqn:EAW. cbn [fst snd] in R, S2.
+    destruct rc as [|code|]; [| |contradiction]; cbn [to_ares] in R; subst r.
+    + apply (IH _ _ _ _ S2 Q' H).
+    + mon. split; [exact S2|reflexivity].
+Qed.
+
+Lemma sim_mark_queue c st q m : forall a, sim c st a -> sim c st (mark_queue c a q m).
+Proof.
+  induction q as [|[[h off] data] t IH]; intros a S; cbn [mark_queue]; [exact S|].
+  apply IH. destruct (attr_of c h) as [[]|]; try exact S. apply sim_set_mark. exact S.
+Qed.
+
+Lemma mark_queue_fields c q m : forall a,
+  as_owner (mark_queue c a q m) = as_owner a /\ as_queue (mark_queue c a q m) = as_queue a.
+Proof.
+  induction q as [|[[h off] data] t IH]; intros a; cbn [mark_queue]; [split; reflexivity|].
+  destruct (IH (match attr_of c h with Some (AValue _ _ g _) => set_mark a g m | _ => a end)) as [I1 I2].
+  rewrite I1, I2. destruct (attr_of c h) as [[]|]; split; reflexivity.
+Qed.
+
+(* releasing the queue: write_queue::free_write_queue *)
+Lemma release_sim c st a cid cancel : sim c st a -> sim c (wq_free st cid) (arelease c a cid cancel).
+Proof.
+  intros S. unfold wq_free, arelease. rewrite <- (sim_owner S).
+  destruct (as_owner a) as [o|]; [|exact S]. destruct (Nat.eqb o cid); [|exact S].
+  assert (S1 : sim c st (if cancel then mark_queue c a (as_queue a) m_cancelled else a)) by (destruct cancel; [apply sim_mark_queue|]; exact S).
+  destruct S1 as [H1 H2 H3 H4 H5 H6]. constructor; cbn; try assumption; try reflexivity. constructor.
+Qed.
+
+Lemma handle_execute_write_sim c st a cid k qs flag b out_size st' b' m :
+  sim c st a -> get_conn st cid = Some k -> wqueue c = Some qs -> 23 <= out_size ->
+  handle_execute_write c st cid [24; flag] b out_size = Some (st', (b', m)) ->
+  m <= len b' /\ sim c st' (fst (aexec c a cid flag)) /\ sat (snd (aexec c a cid flag)) (OBytes (takeN m b')).
+Proof.
+  intros S G Hq Ho. unfold handle_execute_write, aexec. rewrite rd_0, Hq, rd_1.
+  cbn [len length N.of_nat Pos.of_succ_nat Pos.succ N.eqb Pos.eqb negb].
+  destruct (negb (flag =? 0) && negb (flag =? 1)).
+  - intros H. mon. destruct (error_response_exact _ _ _ _ out_size _ _ ltac:(lia) E) as [L T]. split; [exact L|]. split; [exact S|exact I].
+  - rewrite <- (sim_owner S).
+    destruct ((flag =? 1) && match as_owner a with Some o => Nat.eqb o cid | None => false end) eqn:EM.
+    + destruct (execute_writes c st cid (wq_elems st)) as [[st1 failure]|] eqn:EX; [|discriminate].
+      destruct (execute_writes_sim c cid _ _ _ _ _ S (sim_qok S) EX) as [S1 F]. rewrite <- (sim_queue S) in S1, F.
+      destruct (aexecute c a cid (as_queue a)) as [a1 f]. cbn [fst snd] in S1, F. subst f.
+      destruct failure as [[h code]|]; intros H; mon.
+      * destruct (error_response_exact _ _ _ _ out_size _ _ ltac:(lia) E) as [L T].
+        split; [exact L|]. split; [apply release_sim; exact S1|]. cbn [snd sat]. rewrite T. reflexivity.
+      * match goal with X : put b 0 [25] = Some ?x |- _ => apply put_spec in X; destruct X as [X B]; change (N.to_nat 0) with 0%nat in *;
+          cbn [firstn app Nat.add length] in *; subst x end.
+        split; [unfold len; cbn [length]; lia|]. split; [apply release_sim; exact S1|]. reflexivity.
+    + intros H. mon.
+      match goal with X : put b 0 [25] = Some ?x |- _ => apply put_spec in X; destruct X as [X B]; change (N.to_nat 0) with 0%nat in *;
+        cbn [firstn app Nat.add length] in *; subst x end.
+      split; [unfold len; cbn [length]; lia|]. split; [apply release_sim; exact S|]. reflexivity.
 Qed.
